@@ -1,0 +1,16 @@
+//go:build verif
+// +build verif
+
+package floatingip
+
+// Hooks for the verification harness in /verif. Built only with -tags verif; adds no behaviour.
+
+// VerifHandleFIPAssign delivers an informer add event of a FloatingIP object to the ipam.
+func VerifHandleFIPAssign(i IPAM, obj interface{}) error {
+	return i.(*crdIpam).handleFIPAssign(obj)
+}
+
+// VerifHandleFIPUnassign delivers an informer delete event of a FloatingIP object to the ipam.
+func VerifHandleFIPUnassign(i IPAM, obj interface{}) error {
+	return i.(*crdIpam).handleFIPUnassign(obj)
+}
